@@ -91,6 +91,14 @@ CALL_SAME_ROOT = (
 CALL_DEREF = ("std::ops::Deref::deref", "std::ops::DerefMut::deref_mut", "std::ops::Deref::deref", "std::ops::DerefMut::deref_mut")
 
 
+# std accessors that take `&mut` only to hand out a (sub-)reference or to inspect: they do not modify their argument
+NONWRITING_STD = (
+    "::get_mut", "::as_mut", "ops::IndexMut::index_mut", "ops::DerefMut::deref_mut", "::iter_mut", "::as_mut_slice",
+    "::split_at_mut", "::first_mut", "::last_mut", "::as_deref_mut", "borrow::BorrowMut::borrow_mut", "convert::AsMut::as_mut",
+    "ops::Try::branch", "::ok_or", "::ok_or_else", "iter::IntoIterator::into_iter", "::len", "::is_empty",
+)
+
+
 class Pts:
     def __init__(self, fn, ret_alias=None):
         """ret_alias: callable(callee_path) -> set of (argidx, proj) the returned reference may point
@@ -403,6 +411,8 @@ class Effects:
                     if ai < len(args):
                         for (bi, bch) in self._arg_paths(pts, args[ai]):
                             err.add((bi, (bch + ch)[:MAXDEPTH]))
+        if (not targets) and any(name.endswith(x) for x in NONWRITING_STD):
+            return set(), set(), is_res
         if (not targets) or (c.get("inst") == "virtual" and self.foreign):
             # foreign code: writes everything reachable through &mut arguments
             for i, a in enumerate(args):
